@@ -35,6 +35,7 @@ type incarnation struct {
 	rmReturn  int64
 	ok        bool
 	owner     int
+	chain     int // incarnations that overwrite one another without a removal in between share a chain
 }
 
 type sendRec struct {
@@ -92,9 +93,11 @@ func TestC04Concurrent(t *testing.T) {
 						mu.Lock()
 						if inc.ok {
 							// an overwrite ends the previous incarnation of the same (type, id)
+							inc.chain = inc.k
 							for _, o := range incs {
 								if o.ok && o.et == et && o.rmCall == math.MaxInt64 && o.sink != sink && ownedBy(o, g, incs, pid) {
 									o.rmCall, o.rmReturn = inc.regCall, inc.regReturn
+									inc.chain = o.chain
 								}
 							}
 							inc.owner = g
@@ -200,7 +203,51 @@ func TestC04Concurrent(t *testing.T) {
 				}
 			}
 		}
+		// a pipeline id that is overwritten (never removed in between) is one continuously registered
+		// pipeline: a Send that ran entirely while the chain existed is processed by exactly one version
+		type chainT struct {
+			et         string
+			start, end int64
+			incs       []*incarnation
+		}
+		chains := map[int]*chainT{}
+		for _, inc := range incs {
+			c := chains[inc.chain]
+			if c == nil {
+				c = &chainT{et: inc.et, start: inc.regReturn, end: inc.rmCall}
+				chains[inc.chain] = c
+			}
+			if inc.regReturn < c.start {
+				c.start = inc.regReturn
+			}
+			if inc.rmCall > c.end {
+				c.end = inc.rmCall
+			}
+			c.incs = append(c.incs, inc)
+		}
+		overwriteOverlap := false
+		for _, c := range chains {
+			if len(c.incs) < 2 {
+				continue
+			}
+			for _, s := range sends {
+				if s.et != c.et || !(c.start < s.start && s.end < c.end) {
+					continue
+				}
+				total := 0
+				for _, inc := range c.incs {
+					total += got[inc.sink][s.id]
+				}
+				if total != 1 {
+					t.Fatalf("VIOLATION C04: Send %d [%d,%d] ran entirely while pipeline chain %d (overwritten %d times, never removed) was registered [%d,%d] but was processed by %d versions of it", s.id, s.start, s.end, c.incs[0].chain, len(c.incs)-1, c.start, c.end, total)
+				}
+				overwriteOverlap = true
+			}
+		}
 		desc := fmt.Sprintf("mutators=%d senders=%d ops=%d sends=%d plans=%v", nMut, nSend, nOps, nSends, plans)
+		if overwriteOverlap {
+			sec.Class("send_during_overwrite_chain")
+		}
 		var cl []string
 		if overlap {
 			cl = append(cl, "send_overlapped_register_or_remove")
